@@ -20,49 +20,83 @@ namespace Pyro.C10
 
 open Pyro Pyro.Streams
 
-/-! ## obligations about the extracted facts -/
+/-! ## obligations about the extracted facts
 
-/-- **C10_gen_facts.**  The decision points the model copies are the ones in the source: lingering is
-    `ITER_STREAM_LINGER > 0`, lifetime expiry is `0 < LIFETIME < now - created`, linger expiry is
-    `now - linger_start > LINGER`; `get_next_stream_item` catches `Exception` around `next(stream)` and
-    re-raises; the proxy's sequence number is 16 bits; the client iterator drops its proxy after
-    StopIteration / GeneratorExit; the user hook `clientDisconnect(conn)` is the last statement of
-    `_clientDisconnect`, so a hook that raises cannot skip the stream bookkeeping (`Settings.hookFails`
-    only changes the reply of `disconnect`). -/
+  The facts are obtained by PROBING the real code at extraction time (harness/props/c10_probe.py): the real
+  methods are called on prepared stream tables under a controlled clock, with recording / vanishing
+  stand-ins for the dict and the lock.  They do not depend on how the source is spelled. -/
+
+/-- the model's answer to a housekeeping probe row: which of the entries survive `doHousekeeping` -/
+def hkModel (row : Int × Int × Nat × List (Option Nat × Nat × Nat) × List Bool) : List Bool :=
+  let es := row.2.2.2.1
+  let table : Table := (List.range es.length).zip es |>.map fun p =>
+    (p.1, { owner := p.2.1, created := p.2.2.1, linger := p.2.2.2, rest := [] })
+  let st := doHousekeeping { streaming := true, lifetime := row.1, linger := row.2.1 }
+    { table := table, now := row.2.2.1, nextId := es.length }
+  (List.range es.length).map fun i => (st.table.get i).isSome
+
+/-- the model's answer to a disconnect probe row: per entry removed, or (owner, linger start) -/
+def discModel (row : Int × Nat × List (Option Nat × Nat × Nat) × List (Option (Option Nat × Nat))) :
+    List (Option (Option Nat × Nat)) :=
+  let es := row.2.2.1
+  let table : Table := (List.range es.length).zip es |>.map fun p =>
+    (p.1, { owner := p.2.1, created := p.2.2.1, linger := p.2.2.2, rest := [] })
+  let st := doDisconnect { streaming := true, lifetime := 0, linger := row.1 }
+    { table := table, now := row.2.1, nextId := es.length } 0
+  (List.range es.length).map fun i => (st.table.get i).map fun e => (e.owner, e.linger)
+
+/-- **C10_gen_expiry_probe.**  On every probed table (5 settings of lifetime / linger incl. disabled and
+    negative; entries with and without owner, created exactly at / one before / one after the lifetime
+    boundary, linger start 0 / at / before / after the linger boundary; the empty table) one real
+    `_housekeeping()` pass keeps exactly the entries `doHousekeeping` keeps. -/
+theorem C10_gen_expiry_probe :
+    Pyro.Gen.C10.hkProbe.length = 10 ∧ ∀ row ∈ Pyro.Gen.C10.hkProbe, hkModel row = row.2.2.2.2 := by
+  decide
+
+/-- **C10_gen_disconnect_probe.**  On the probed tables (linger 0 / 4 / −3; entries owned by the ending
+    connection, by another one, by nobody; lingering or not) one real `_clientDisconnect` leaves exactly
+    what `doDisconnect` leaves (dropped, or owner `None` with linger start = now, or untouched). -/
+theorem C10_gen_disconnect_probe :
+    Pyro.Gen.C10.discProbe.length = 3 ∧ ∀ row ∈ Pyro.Gen.C10.discProbe, discModel row = row.2.2.2 := by
+  decide
+
+/-- **C10_gen_facts.**  An `Exception` raised by `next(stream)` (StopIteration included) removes the stream
+    and reaches the caller unchanged; the proxy's sequence number wraps after 65535; the client iterator
+    drops its proxy exactly after StopIteration / GeneratorExit; a user hook `clientDisconnect(conn)` that
+    raises is called once and cannot skip the stream bookkeeping (`Settings.hookFails` only changes the
+    reply of `disconnect`). -/
 theorem C10_gen_facts :
-    Pyro.Gen.C10.compares = ["config.ITER_STREAM_LINGER > 0", "config.ITER_STREAM_LIFETIME > 0",
-      "0 < config.ITER_STREAM_LIFETIME < last_use_period", "config.ITER_STREAM_LINGER > 0",
-      "linger_period > config.ITER_STREAM_LINGER"] ∧
-    Pyro.Gen.C10.nextCatches = ["Exception"] ∧ Pyro.Gen.C10.nextReraises = true ∧
-    Pyro.Gen.C10.seqMask = 65535 ∧ Pyro.Gen.C10.disconnectHookLast = true ∧
-    Pyro.Gen.C10.clientStopCatches = ["StopIteration", "GeneratorExit"] ∧
-    Pyro.Gen.C10.removals.map (·.1) = ["get_next_stream_item", "close_stream", "_clientDisconnect", "_housekeeping"] := by
+    Pyro.Gen.C10.nextRemovesAndReraises = true ∧ Pyro.Gen.C10.seqMask = 65535 ∧
+    Pyro.Gen.C10.hookCannotSkipBookkeeping = true ∧
+    Pyro.Gen.C10.clientDropsProxyOn = ["StopIteration", "GeneratorExit"] := by
   decide
 
-/-- **C10_gen_removal_tolerant.**  Every statement that removes a stream from the table —
-    in `get_next_stream_item`, `close_stream`, `_clientDisconnect` and both loops of `_housekeeping` —
-    is the tolerant form `pop(id, default)`: removing a stream that another thread has just removed
-    cannot fail.  This is the premise of `C10_sched_no_masking` / `C10_sched_cleanup_total`
-    (it is false for the `del` form, see `C10_sched_strict_masks`). -/
+/-- **C10_gen_removal_tolerant.**  Each of the five places that remove a stream from the table —
+    `get_next_stream_item`, `close_stream`, `_clientDisconnect` and the lifetime and linger loops of
+    `_housekeeping` — survives the stream having been removed by another thread between its lookup and
+    its removal (probed with a table whose keys vanish after being looked up).  This is the premise of
+    `C10_sched_no_masking` / `C10_sched_cleanup_total` (false for `del`, see `C10_sched_strict_masks`). -/
 theorem C10_gen_removal_tolerant :
-    ∀ r ∈ Pyro.Gen.C10.removals, r.2 ≠ [] ∧ ∀ k ∈ r.2, k = "pop-default" := by
+    Pyro.Gen.C10.removalTolerant.map (·.1) =
+      ["get_next_stream_item", "close_stream", "_clientDisconnect", "_housekeeping/lifetime", "_housekeeping/linger"] ∧
+    ∀ r ∈ Pyro.Gen.C10.removalTolerant, r.2 = true := by
   decide
 
-/-- **C10_gen_environment.**  Two assumptions of the model about its environment, as far as they are
-    visible in the source: (1) a new stream's id is `str(uuid.uuid4())` — fresh, and independent of
-    anything the client sends (the model's counter); (2) housekeeping passes do occur on a running
-    server, also a busy one: the multiplex server runs one after every batch of events and when
-    idle, the thread-pool server has its Housekeeper thread (the model's `housekeeping` operation is
-    an event the environment keeps supplying). -/
+/-- **C10_gen_environment.**  Two assumptions of the model about its environment, probed: (1) new streams
+    get ids that are fresh even under an identical request context (same correlation id, connection,
+    clock) — the model's counter; (2) housekeeping passes do occur on a running server, also a busy one:
+    the multiplex server makes one after every batch of events and when idle, the thread-pool server's
+    Housekeeper thread makes them (the model's `housekeeping` operation is an event the environment
+    keeps supplying). -/
 theorem C10_gen_environment :
-    Pyro.Gen.C10.streamIdExpr = "str(uuid.uuid4())" ∧ Pyro.Gen.C10.muxEventsHousekeeps = true ∧
+    Pyro.Gen.C10.streamIdsFresh = true ∧ Pyro.Gen.C10.muxEventsHousekeeps = true ∧
     Pyro.Gen.C10.muxIdleHousekeeps = true ∧ Pyro.Gen.C10.threadHousekeeperRuns = true := by
   decide
 
-/-- **C10_gen_housekeeping_locked.**  Every access of the stream table in `_housekeeping` is inside
-    `with self.housekeeper_lock:` (premise of `C10_housekeeping_serial`). -/
+/-- **C10_gen_housekeeping_locked.**  During a `_housekeeping()` pass every access of the stream table
+    happens with `housekeeper_lock` held (premise of `C10_housekeeping_serial`). -/
 theorem C10_gen_housekeeping_locked :
-    Pyro.Gen.C10.hkLockOutside = 0 ∧ 0 < Pyro.Gen.C10.hkLockInside := by
+    Pyro.Gen.C10.hkAccessesUnlocked = 0 ∧ 0 < Pyro.Gen.C10.hkAccessesLocked := by
   decide
 
 /-! ## histories -/
@@ -315,6 +349,20 @@ theorem C10_client_exact (cfg : Settings) (mask t0 nprox seq0 : Nat) (cops : Lis
     cases e.rest with
     | nil => rfl
     | cons x tl => cases x <;> rfl
+
+/-- **C10_client_survives_loss.**  A connection that breaks during an item request costs the client
+    nothing but that one error: the iterator keeps its proxy (ConnectionClosedError is not among the
+    exceptions after which it drops it — `C10_gen_facts`), the server sees the connection end (the
+    stream lingers or is dropped as for any disconnect), and by `C10_client_exact` the next `next(it)`
+    after a reconnect continues with the next undelivered item while the server remembers the stream. -/
+theorem C10_client_survives_loss (cfg : Settings) (mask : Nat) (s : Sys) (i p c : Nat) (it : Iter) (px : Proxy)
+    (hit : s.iters[i]? = some it) (hp : it.proxy = some p) (hpx : s.proxies[p]? = some px) (hc : px.conn = some c) :
+    let r := cstep cfg mask s (.inextLost i)
+    r.2 = .connClosed ∧ r.1.iters[i]? = some { it with pyroseq := it.pyroseq + 1 } ∧
+    r.1.log = s.log ++ [(.disconnect c, if cfg.hookFails then .hookError else .ok)] := by
+  have hlen : i < s.iters.length := (List.getElem?_eq_some_iff.mp hit).1
+  simp only [cstep, hit, hp, hpx, hc, Sys.server, step]
+  simp [List.getElem?_set_self hlen]
 
 /-- **C10_client_close_forgets.**  `it.close()` on a client iterator whose proxy is connected makes
     the server forget the stream — whether the proxy's sequence number is still in step with the
